@@ -53,6 +53,7 @@ class Acc:
         self.samples = []          # list of (rank, case)
         self.viol = {}             # key -> [count, what, [cases]]
         self.states = 0
+        self.stateset = set()      # hashes of canonical states (union on merge)
         self.transitions = 0
         self.traces = 0
         self.extra = {}            # name -> int (summed on merge) or list
@@ -95,6 +96,7 @@ class Acc:
             v[0] += c
             v[2] = (v[2] + cs)[:MAX_VIOL_PER_KEY]
         self.states += other.states
+        self.stateset |= other.stateset
         self.transitions += other.transitions
         self.traces += other.traces
         for k, n in other.extra.items():
@@ -236,7 +238,7 @@ def main(argv=None):
         "caps_hit": total.caps,
     }
     if mod.LEVEL == "model_checking":
-        cov["states"] = total.states
+        cov["states"] = total.states + len(total.stateset)
         cov["transitions"] = total.transitions
         cov["traces_validated_against_impl"] = total.traces
     cov.update({k: v for k, v in total.extra.items()})
@@ -260,6 +262,6 @@ def main(argv=None):
         with open(os.path.join(ROOT, "evidence", pid + ".json"), "w") as f:
             f.write(jdump(ev, indent=1))
     print("%s tier=%s evaluations=%d distinct_nontrivial=%d outcomes=%d states=%d transitions=%d violations=%d known=%d wall=%.1fs"
-          % (pid, a.tier, total.evaluations, len(total.nontrivial), len(total.outcomes), total.states,
+          % (pid, a.tier, total.evaluations, len(total.nontrivial), len(total.outcomes), total.states + len(total.stateset),
              total.transitions, len(new), len(ev["known_findings_seen"]), wall))
     return 1 if new else 0
